@@ -341,7 +341,7 @@ def fn_term(prog, mod, name, depth=0):
 # values without the known hash confusions of C05/F03 (no two of them collide); the confusions are exercised by targeted
 # scenarios, where they are reported as known findings
 VAR_VALUES = [V.i_(0), V.i_(5), V.i_(-3), V.i_(2**40), V.s_("hello"), V.s_(""), V.f_(1.5), ["list", [V.i_(1), V.s_("a")]],
-              ["dict", [[V.s_("k"), V.i_(2)]]], ["path", b"a/b".hex()], ["list", [V.i_(5)]], ["bool", True], ["none"]]   # (no False: it is 0 for dds_hash - documented identification)
+              ["dict", [[V.s_("k"), V.i_(2)]]], ["path", b"a/b".hex()], ["list", [V.i_(5)]], ["bool", True], ["none"], ["path", b"../data/in".hex()]]   # (no False: it is 0 for dds_hash - documented identification)
 LIT_VALUES = [V.i_(0), V.i_(7), V.i_(-1), V.s_("z"), V.s_(""), ["none"], ["bool", True], ["bool", False], V.f_(2.5), V.s_("zz")]
 DEFAULTS = [V.i_(3), V.i_(0), V.s_("d"), V.s_(""), ["none"], ["bool", False], ["bool", True]]
 
